@@ -24,7 +24,33 @@ func c36R1(c *engine.Ctx) {
 	if fn == nil {
 		return
 	}
-	pi, pj := fn.Params[1], fn.Params[2]
+	var pi, pj ssa.Value = fn.Params[1], fn.Params[2]
+	// the comparison may be delegated to a helper of the package applied to the
+	// two elements (entityBefore(e[i], e[j])): the helper is then the function
+	// evaluated, its parameters in the roles of element i and element j
+	target := fn
+	if rets := engine.Returns(fn); len(rets) == 1 {
+		if call := engine.CallOf(rets[0].Results[0]); call != nil {
+			if h := call.Common().StaticCallee(); h != nil && len(h.Blocks) > 0 && h.Pkg == fn.Pkg {
+				var hi, hj ssa.Value
+				for k, a := range engine.Args(call.Common()) {
+					if k >= len(h.Params) {
+						break
+					}
+					di, dj := engine.DependsOn(a, pi), engine.DependsOn(a, pj)
+					if di && !dj {
+						hi = h.Params[k]
+					}
+					if dj && !di {
+						hj = h.Params[k]
+					}
+				}
+				if hi != nil && hj != nil {
+					target, pi, pj = h, hi, hj
+				}
+			}
+		}
+	}
 	// symbol of an operand: which getter on which element
 	sym := func(v ssa.Value) string {
 		call := engine.CallOf(v)
@@ -72,7 +98,7 @@ func c36R1(c *engine.Ctx) {
 				}
 				return 0, false
 			}
-			r, err := engine.AbstractRun(fn, rel)
+			r, err := engine.AbstractRun(target, rel)
 			if err != nil || r.Bool == nil {
 				c.Undecided("C36.R1", key, fn.Pos(), "abstract evaluation failed: %v", err)
 				continue
